@@ -12,8 +12,8 @@ Record Sep (s : hstate) : Prop := mkSep {
 Definition op_ok (s : hstate) (o : hop) : Prop :=
   match o with
   | HNew h None => h_blocks s h = None
-  | HNew h (Some lid) => h_blocks s h = None /\ (exists its, h_lists s lid = Some its) /\
-                         forall h', h_blocks s h' <> Some lid           (* a list no other block was given *)
+  | HNew h (Some lid) => h_blocks s h = None /\ (exists its, h_lists s lid = Some its)
+                         (* any list: also one another block was constructed from, or another block's own *)
   | HDecode h _ => h_blocks s h = None
   | _ => True
   end.
@@ -78,21 +78,30 @@ Proof.
   induction 1 as [|x l Hx Hl IH]; intros [|i]; cbn [remove_at]; try constructor; try assumption. apply IH.
 Qed.
 
+Lemma new_given_eq s h lid its : h_lists s lid = Some its ->
+  h_step s (HNew h (Some lid)) =
+  mkH (h_next s + 1) (fupd (h_next s) its (h_lists s)) (h_vers s) (fupd h (h_next s) (h_blocks s)).
+Proof. intros H. cbn [h_step]. now rewrite H. Qed.
+
 Theorem Sep_step s o : Sep s -> op_ok s o -> Sep (h_step s o).
 Proof.
   intros HS Hok. pose proof HS as [I1 I2 I3 I4].
   destruct o as [k|h [lid|]|h k|h|h i|h i|h h'|h]; cbn [h_step op_ok] in *.
   - (* HMkList *) apply Sep_alloc; [exact HS|exact I1|intros; tauto].
-  - (* HNew, caller's list *)
-    destruct Hok as [Hnew [[its Hits] Hfree]]. split; cbn [h_next h_lists h_vers h_blocks].
-    + intros h1 h2 l. unfold fupd.
-      destruct (Z.eqb_spec h1 h), (Z.eqb_spec h2 h); intros H1 H2; inv_some; try congruence;
-        try (exfalso; eapply Hfree; eassumption). now apply (I1 h1 h2 l).
-    + intros h0 l. unfold fupd. destruct (Z.eqb_spec h0 h).
-      * intros H. inv_some. split; [now apply (I3 l its)|now exists its].
-      * apply I2.
-    + exact I3.
-    + exact I4.
+  - (* HNew, caller's list: copied into a fresh one *)
+    destruct Hok as [Hnew [its Hits]]. rewrite Hits.
+    destruct (I3 lid its Hits) as [Hlid Hf].
+    split; cbn [h_next h_lists h_vers h_blocks].
+    + intros h1 h2 l. unfold fupd. destruct (Z.eqb_spec h1 h), (Z.eqb_spec h2 h); intros H1 H2; inv_some; try congruence;
+        try (exfalso; destruct (I2 h2 _ H2); lia); try (exfalso; destruct (I2 h1 _ H1); lia).
+      now apply (I1 h1 h2 l).
+    + intros h0 l. unfold fupd at 1. destruct (Z.eqb_spec h0 h); intros H.
+      * inv_some. split; [lia|]. rewrite fupd_same. now eexists.
+      * destruct (I2 h0 l H) as [H1 [its0 H2]]. split; [lia|]. rewrite fupd_other by lia. now exists its0.
+    + intros l its0. unfold fupd. destruct (Z.eqb_spec l (h_next s)) as [->|N]; intros H.
+      * inv_some. split; [lia|]. eapply Forall_lt_mono; [|exact Hf]. lia.
+      * destruct (I3 l its0 H) as [H1 H2]. split; [lia|]. eapply Forall_lt_mono; [|exact H2]. lia.
+    + intros it v H. specialize (I4 it v H). lia.
   - (* HNew, own list *)
     replace (h_next s + 1) with (h_next s + 1 + Z.of_nat 0) by lia.
     change (@nil Z) with (zseq (h_next s + 1) 0). change (h_vers s) with (fupd_all (zseq (h_next s + 1) 0) 0 (h_vers s)).
@@ -189,7 +198,9 @@ Proof.
     + intros l Hb. rewrite fupd_other; [reflexivity|specialize (Hlid l Hb); lia].
     + intros it Hin. apply fupd_all_below. specialize (Hitems it Hin).
       eapply Forall_impl; [|apply zseq_bounds]. cbn beta. intros; lia.
-  - apply content_ext; cbn [h_blocks h_lists h_vers]; [now rewrite fupd_other|reflexivity|reflexivity].
+  - destruct (h_lists s lid) as [its|] eqn:Hl0; [|reflexivity].
+    apply content_ext; cbn [h_blocks h_lists h_vers]; [now rewrite fupd_other| |reflexivity].
+    intros l Hb. rewrite fupd_other; [reflexivity|specialize (Hlid l Hb); lia].
   - apply content_ext; cbn [h_blocks h_lists h_vers]; [now rewrite fupd_other| |reflexivity].
     intros l Hb. rewrite fupd_other; [reflexivity|specialize (Hlid l Hb); lia].
   - apply content_ext; cbn [h_blocks h_lists h_vers]; [now rewrite fupd_other| |].
